@@ -58,6 +58,9 @@ pub struct C13Case {
     pub noise_len: u16,
     pub noise_seed: u32,
     pub lead_flags: u8,
+    /// a quiet line before the opening flags: this many zero bits after the noise
+    #[serde(default)]
+    pub quiet: u8,
     pub min: u16,
     pub max: u16,
     pub checksum: bool,
@@ -93,7 +96,7 @@ fn case_strategy(max_sched: usize) -> BoxedStrategy<C13Case> {
                 prop::collection::vec(frame_strategy(max), 1..9),
                 prop_oneof![Just(0u16), 0u16..200],
                 any::<u32>(),
-                2u8..7,
+                (1u8..7, prop_oneof![3 => Just(0u8), 1 => 1u8..8, 2 => 8u8..60]),
                 Just(min),
                 Just(max),
                 any::<bool>(),
@@ -106,7 +109,7 @@ fn case_strategy(max_sched: usize) -> BoxedStrategy<C13Case> {
                 crate::dripcase::drain_sz(),
             )
         })
-        .prop_map(|(frames, noise_len, noise_seed, lead_flags, min, max, checksum, fix, mode, in_pages, schedule, drain_feed)| C13Case {
+        .prop_map(|(frames, noise_len, noise_seed, (lead_flags, quiet), min, max, checksum, fix, mode, in_pages, schedule, drain_feed)| C13Case {
             frames: if in_pages >= 16 {
                 // the same frame shapes five times over, with other contents
                 (0..5u32).flat_map(|r| frames.iter().map(move |f| FrameSpec { seed: f.seed.wrapping_add(r.wrapping_mul(0x9E37)), ..f.clone() })).collect()
@@ -116,6 +119,7 @@ fn case_strategy(max_sched: usize) -> BoxedStrategy<C13Case> {
             noise_len,
             noise_seed,
             lead_flags,
+            quiet,
             min,
             max,
             checksum,
@@ -160,7 +164,9 @@ pub struct Tx {
 
 pub fn transmission(c: &C13Case) -> Tx {
     let mut bits = flag_free_noise(c.noise_len as usize, c.noise_seed);
-    for _ in 0..c.lead_flags.max(2) {
+    bits.extend(std::iter::repeat(0u8).take(c.quiet as usize));
+    // a single opening flag is a valid start of a transmission
+    for _ in 0..c.lead_flags.max(1) {
         bits.extend(FLAG_BITS);
     }
     let mut bodies = Vec::new();
@@ -264,6 +270,7 @@ impl Prop for C13 {
                     noise_len: 0,
                     noise_seed: 0,
                     lead_flags: 2,
+                    quiet: 0,
                     min: 3,
                     max: 60,
                     checksum,
@@ -287,6 +294,7 @@ impl Prop for C13 {
                 noise_len: 0,
                 noise_seed: 0,
                 lead_flags: 3,
+                quiet: 0,
                 min: 3,
                 max: 200,
                 checksum: true,
@@ -472,7 +480,7 @@ impl Prop for C13 {
         }
     }
     fn rule(&self) -> String {
-        "generated: 1-8 frames (payload 0..max+2 bytes; random and stuffing-heavy 0xFF/0x7E/0x3F/0xF8 runs) framed by an independent HDLC framer (flags, LSB-first, bitwise CRC-16/X.25, stuffing) with shared or separate flags after a flag-free noise preamble and >= 2 flags; min_size 0..11, max_size 2..400 (one case in 25: 515..1600, frames of up to 1600 bytes), checksum on/off, fix-bits on/off; modes clean / 1-2 bit flips / raw noise; every single-flip position of three base transmissions enumerated; all delivered through generated drip schedules on 1-2 page streams. Oracle: clean => exactly the payloads whose raw length is within [min,max], once, in order (both with checksum off and on); any bit stream => frames delivered with checksum on == CRC-verified subset of the frames delivered with checksum off (E3 CRC); with fix-bits each raw frame maps to itself if verified, a single-bit repair, or nothing; never a panic. Non-trivial: corruption/noise case, or size-boundary frame, or a stuffed bit next to a flag with the frame straddling work() calls; distinct = hash of the case.".into()
+        "generated: 1-8 frames (payload 0..max+2 bytes; random and stuffing-heavy 0xFF/0x7E/0x3F/0xF8 runs) framed by an independent HDLC framer (flags, LSB-first, bitwise CRC-16/X.25, stuffing) with shared or separate flags after a flag-free noise preamble, optionally a quiet line of 1-59 zero bits, and 1-6 opening flags; min_size 0..11, max_size 2..400 (one case in 25: 515..1600, frames of up to 1600 bytes), checksum on/off, fix-bits on/off; modes clean / 1-2 bit flips / raw noise; every single-flip position of three base transmissions enumerated; all delivered through generated drip schedules on 1-2 page streams. Oracle: clean => exactly the payloads whose raw length is within [min,max], once, in order (both with checksum off and on); any bit stream => frames delivered with checksum on == CRC-verified subset of the frames delivered with checksum off (E3 CRC); with fix-bits each raw frame maps to itself if verified, a single-bit repair, or nothing; never a panic. Non-trivial: corruption/noise case, or size-boundary frame, or a stuffed bit next to a flag with the frame straddling work() calls; distinct = hash of the case.".into()
     }
     fn assumptions(&self) -> Vec<String> {
         vec![
